@@ -216,7 +216,7 @@ func c06ErrorFunctions(r *yc.Real) {
 
 // c06Run executes one faulty program: every choice sequence, no call may panic; if mustErrStep is
 // true the model decides where the error must occur (StrictErrors walk), else only "no panic".
-func c06Run(ctx *report.Ctx, c *explore.Chooser, partName string, p *yc.Program, desc string, strict bool) {
+func c06Run(ctx *report.Ctx, c *explore.Chooser, partName string, p *yc.Program, desc string, strict bool, refusals ...int) {
 	srcs := yc.Render(p, nil)
 	script := scriptOf(srcs)
 	ctx.Current(partName + ": " + script)
@@ -251,6 +251,7 @@ func c06Run(ctx *report.Ctx, c *explore.Chooser, partName string, p *yc.Program,
 	}
 	// 2. the fault must surface as an error at its step
 	wo := yc.WalkOpts{MaxSteps: 10, MaxJumps: 3, StrictErrors: true, AfterError: 3, Flags: yc.Flags{IgnoreText: true},
+		Refusals: append(refusals, 0)[0],
 		Setup: func(r *yc.Real, log *[]string) {
 			r.DR.ConvertAndAddFunction("conv", func(i int, s string) int { return i + len(s) })
 			r.DR.ConvertAndAddFunction("convv", func(i int, rest ...string) string { return fmt.Sprint(i, rest) })
@@ -351,6 +352,19 @@ func runC06(ctx *report.Ctx) {
 			body = []*yc.Stmt{yc.Options(&yc.Option{Line: yc.TextLine("o1"), Body: body}, &yc.Option{Line: yc.TextLine("o2")})}
 		}
 		c06Run(ctx, c, "P1-statements", wrapProgram(body), "statement fault", true)
+	})
+	// RF: host configuration includes what the host tried and was refused: before the dialogue or between any two steps one
+	// operation the library refuses (restore of a snapshot naming an unknown node; registration of values that are no
+	// functions / commands under the names the script uses, known and unknown): every fault still surfaces as the error it
+	// was, nothing panics, jumps included
+	part(ctx, "RF-refused-host-operation", -1, func(c *explore.Chooser) {
+		sf := append(statementFaults(), []*yc.Stmt{yc.Jump("B")}, []*yc.Stmt{yc.Line("l"), yc.Call("probe", yc.ENumber(1)), yc.Command("act"), yc.JumpE(yc.EString("B"))},
+			[]*yc.Stmt{yc.Options(&yc.Option{Line: yc.TextLine("go"), Body: []*yc.Stmt{yc.Jump("B")}}, &yc.Option{Line: yc.TextLine("call"), Body: []*yc.Stmt{yc.Call("nofn"), yc.Command("nocmd"), yc.Jump("A")}})})
+		body := sf[c.Choose(len(sf), "body")]
+		if !c.Mine() {
+			return
+		}
+		c06Run(ctx, c, "RF-refused-host-operation", wrapProgram(body), "refused host operation", true, 1)
 	})
 	// HC: host configuration includes the state the host restores: snapshots it built itself (a save file holding
 	// only some fields: nil maps) restored before the dialogue runs; every path, continuing after errors: no panic
